@@ -86,3 +86,45 @@ Section Okb.
       + now apply strictly_incb_sorted.
   Qed.
 End Okb.
+
+(* the loader-level checker: len() = number of batches, the sampler specification w.r.t. the tables
+   the loader exposes, and those tables monotone in the utterance length (so equal lengths share a
+   bucket and every bucket is an interval of lengths) *)
+Theorem loader_okb_sound : forall lens p i2b b2s order ln out,
+  loader_okb lens p (Some (i2b, b2s)) order ln out = true ->
+  ln = length out /\
+  bbs_spec (tbl i2b) (tbl b2s) (p_drop p) order out /\
+  (forall i j, i < length lens -> j < length lens -> nth i lens 0 <= nth j lens 0 -> tbl i2b i <= tbl i2b j) /\
+  (forall b x y, In b out -> In x b -> In y b -> tbl i2b x = tbl i2b y).
+Proof.
+  intros lens p i2b b2s order ln out H. unfold loader_okb in H.
+  apply andb_true_iff in H. destruct H as [H Hb].
+  apply andb_true_iff in H. destruct H as [Hln _]. apply Nat.eqb_eq in Hln.
+  apply andb_true_iff in Hb. destruct Hb as [Hb Hspec].
+  apply andb_true_iff in Hb. destruct Hb as [_ Hpar].
+  apply bbs_okb_sound in Hspec.
+  split; [exact Hln|]. split; [exact Hspec|]. split.
+  - unfold params_okb in Hpar.
+    apply andb_true_iff in Hpar. destruct Hpar as [Hpar _].
+    apply andb_true_iff in Hpar. destruct Hpar as [_ Hmono].
+    rewrite forallb_forall in Hmono. intros i j Hi Hj Hle.
+    specialize (Hmono i ltac:(apply in_seq; lia)). rewrite forallb_forall in Hmono.
+    specialize (Hmono j ltac:(apply in_seq; lia)).
+    apply orb_true_iff in Hmono. destruct Hmono as [Hm|Hm].
+    + apply negb_true_iff, Nat.leb_gt in Hm. lia.
+    + now apply Nat.leb_le in Hm.
+  - intros b x y Hin Hx Hy. destruct Hspec as (Hsb & _). destruct (Hsb b Hin) as [_ Hall].
+    now rewrite (Hall x Hx), (Hall y Hy).
+Qed.
+
+(* plain batching: the epoch order cut into consecutive batches of batch_size, the remainder kept
+   (not drop_last) or dropped *)
+Theorem plain_okb_sound : forall bs drop order out, plain_okb bs drop order out = true ->
+  exists rest, concat out ++ rest = order /\ (rest = [] \/ (drop = true /\ length rest < bs)).
+Proof.
+  intros bs drop order out H. unfold plain_okb in H. apply andb_true_iff in H. destruct H as [H _].
+  destruct drop.
+  - apply andb_true_iff in H. destruct H as [Hp Hl]. apply Nat.ltb_lt in Hl.
+    destruct (prefixb_split _ _ Hp) as (r & Hr & Hlen). exists r. split; [exact Hr|]. right. split; [reflexivity|lia].
+  - apply ln_eqb_eq in H. exists []. rewrite app_nil_r. split; [exact H|now left].
+Qed.
